@@ -157,6 +157,9 @@ def _child(engine, prop, tier, verif_seed, indices, path, run_cfg, sample_every)
             d["seed"] = run_seed
             fh.write(json.dumps(d, default=repr) + "\n")
             fh.flush()
+            if d.get("violation") and os.environ.get("VERIF_STOP_ON_VIOLATION"):
+                # tooling only (seed re-runs): the campaign ends as soon as enough failing runs exist
+                open(os.path.join(os.path.dirname(path), "violation-%d-%d" % (os.getpid(), i)), "w").close()
     os._exit(0)
 
 
@@ -206,13 +209,17 @@ def run_campaign(engine, prop, tier, verif_seed, n_runs, run_cfg, wall_cap):
     for w in range(nproc):
         spawn(w, slices[w])
     capped = False
+    stop_now = False
     while live:
         try:
             pid, status = os.waitpid(-1, os.WNOHANG)
         except ChildProcessError:
             break
         if pid == 0:
-            if time.time() - t0 > wall_cap and not capped:
+            if os.environ.get("VERIF_STOP_ON_VIOLATION") and not capped and \
+                    len([f for f in os.listdir(tmpd) if f.startswith("violation-")]) >= int(os.environ["VERIF_STOP_ON_VIOLATION"]):
+                stop_now = True  # ends the campaign through the wall-cap path below
+            if (stop_now or time.time() - t0 > wall_cap) and not capped:
                 capped = True
                 for p in list(live):
                     try:
@@ -270,6 +277,9 @@ def run_campaign(engine, prop, tier, verif_seed, n_runs, run_cfg, wall_cap):
                             seen.add(d["i"])
                             yield d
                 os.unlink(files[w])
+        for f in os.listdir(tmpd):
+            if f.startswith("violation-"):
+                os.unlink(os.path.join(tmpd, f))
         try:
             os.rmdir(tmpd)
         except OSError:
